@@ -111,6 +111,8 @@ def run(ctx, uname, u):
                 props = u["untagged_to"]
             obl = tag or ("%s#%s" % (item, re.sub(r"\s+", "-", msg)))
             search = (u.get("search") or {}).get(tag) if tag else None
+            if search is None:
+                search = (u.get("search") or {}).get("*")
             failures.append({"obligation": obl, "props": props, "message": msg, "item": item,
                              "detail": d.get("rendered", "")[:3000], "search": search,
                              "src": ({"file": it["file"], "lines": it["src_lines"]} if it else None)})
